@@ -142,8 +142,26 @@ def run_z3old(smt2, timeout_ms):
 
 
 def solve_one(job):
-    """job = (id, smt2, timeout_ms, portfolio) -> result dict (with 'id', 'tried')."""
+    """job = (id, smt2 | (light_smt2, full_smt2), timeout_ms, portfolio) -> result dict."""
     oid, smt2, timeout_ms, portfolio = job
+    if isinstance(smt2, tuple) and len(smt2) == 3:
+        coi, light, full = smt2
+        r = solve_one((oid, coi, min(timeout_ms, 5000), portfolio))
+        if r['status'] == 'unsat':
+            r['variant'] = 'cone of influence'
+            return r
+        r2 = solve_one((oid, (light, full) if light is not None else full, timeout_ms, portfolio))
+        r2['tried'] = r.get('tried', []) + r2.get('tried', [])
+        return r2
+    if isinstance(smt2, tuple):
+        light, full = smt2
+        r = solve_one((oid, light, min(timeout_ms, 8000), portfolio))
+        if r['status'] == 'unsat':
+            r['variant'] = 'quantifier-free instances'
+            return r
+        r2 = solve_one((oid, full, timeout_ms, portfolio))
+        r2['tried'] = r.get('tried', []) + r2.get('tried', [])
+        return r2
     tried = []
     verdict = None
     strings = uses_strings(smt2)
@@ -202,6 +220,11 @@ def solve_all(obligations, timeout_ms=10000, procs=None, portfolio=None):
             continue
         smt2 = to_smt2(ob.formula())
         ob.smt2 = smt2
+        light = to_smt2(ob.formula(light=True)) if ob.has_quantified_assumptions() else None
+        if len(ob.pc) > 12:
+            smt2 = (to_smt2(ob.formula_coi()), light, smt2)
+        elif light is not None:
+            smt2 = (light, smt2)
         jobs.append((ob.id + '#' + str(len(jobs)), smt2, timeout_ms, portfolio))
     by_id = {}
     if jobs:
